@@ -201,6 +201,88 @@ func DagSchema(r *rand.Rand, n int, p float64) (am.S, am.Schema) {
 	return names, sch
 }
 
+// AutoSchema: k Auto states (sparse relations among them) plus two plain
+// trigger states T and U; AutoCalls drives the partial-acceptance paths: every
+// trigger call carries 1-3 vetoes on Enter / self / state-state handlers of
+// the auto states.
+func AutoSchema(r *rand.Rand) (am.S, am.Schema) {
+	k := 2 + r.Intn(3)
+	names := am.S{}
+	for i := 0; i < k; i++ {
+		names = append(names, string(rune('A'+i)))
+	}
+	sch := am.Schema{}
+	for _, n := range names {
+		st := am.State{Auto: true}
+		o := others(names, n)
+		if r.Float64() < 0.25 {
+			st.Require = subsetSeq(r, o, 1, 0.5)
+		}
+		if r.Float64() < 0.2 {
+			st.Remove = subsetSeq(r, o, 1, 0.5)
+		}
+		if r.Float64() < 0.2 {
+			st.Add = subsetSeq(r, o, 1, 0.5)
+		}
+		if r.Float64() < 0.15 {
+			st.Multi = true
+		}
+		sch[n] = st
+	}
+	names = append(names, "T", "U")
+	sch["T"] = am.State{}
+	sch["U"] = am.State{}
+	if HasRequireRemoveConflict(sch) {
+		return AutoSchema(r)
+	}
+	return names, sch
+}
+
+func AutoCalls(r *rand.Rand, c *Case, n int) []Call {
+	var autos am.S
+	for _, nm := range c.Names {
+		if c.Schema[nm].Auto {
+			autos = append(autos, nm)
+		}
+	}
+	var calls []Call
+	for i := 0; i < n; i++ {
+		call := Call{Ev: "call", Veto: [][]any{}, Nest: []NestAt{}}
+		switch r.Intn(4) {
+		case 0:
+			call.Type, call.Called = "add", am.S{"T"}
+		case 1:
+			call.Type, call.Called = "add", am.S{"U", "T"}
+		case 2:
+			call.Type, call.Called = "remove", append(am.S{"T", "U"}, autos...)
+		default:
+			call.Type, call.Called = "set", am.S{[]string{"T", "U"}[r.Intn(2)]}
+		}
+		if c.On {
+			for j := r.Intn(4); j > 0; j-- {
+				a := autos[r.Intn(len(autos))]
+				var h rec.HName
+				switch r.Intn(5) {
+				case 0, 1:
+					h = rec.HName{"enter", a}
+				case 2:
+					h = rec.HName{"ss", []string{"T", "U"}[r.Intn(2)], a}
+				case 3:
+					h = rec.HName{"ss", autos[r.Intn(len(autos))], a}
+				default:
+					h = rec.HName{"self", a}
+				}
+				if len(h) == 3 && h[1] == h[2] {
+					continue
+				}
+				call.Veto = append(call.Veto, []any{1 + r.Intn(len(c.Binds)), h})
+			}
+		}
+		calls = append(calls, call)
+	}
+	return calls
+}
+
 // ChainSchema: an Add chain A->B->C->... of the given depth plus noise.
 func ChainSchema(r *rand.Rand, depth int) (am.S, am.Schema) {
 	names := am.S{}
